@@ -61,6 +61,30 @@ def run_seeded(EoN, sim, case, seed, full):
     return out
 
 
+def seedable(case):
+    """under the REAL random module choose_random is a rejection sampler: weights of 2^-30 next to weights of order 1
+    (generated to reach the roundoff guard under scripted accept tests) make it spin for ~2^30 rounds per event"""
+    return all(w == 0 or w >= F(1, 8) for t in list(case['node_tabs'].values()) + list(case['edge_tabs'].values()) for w in t.values())
+
+
+class TimeLimit(Exception):
+    pass
+
+
+@contextlib.contextmanager
+def time_limit(seconds):
+    import signal
+    def handler(signum, frame): raise TimeLimit()
+    try:
+        old = signal.signal(signal.SIGALRM, handler); signal.setitimer(signal.ITIMER_REAL, seconds)
+    except ValueError:           # not in the main thread: no limit
+        yield; return
+    try:
+        yield
+    finally:
+        signal.setitimer(signal.ITIMER_REAL, 0); signal.signal(signal.SIGALRM, old)
+
+
 def run_scripted(EoN, sim, case, draws, full):
     o = L.run_impl(EoN, sim, case, draws, full=full)
     if o['status'] == 'OK' and full:
@@ -206,9 +230,14 @@ def collect(EoN, sim, rng, tier, n_scripted, n_seeded):
             res.append((c, {'draws': [str(d) for d in draws]}, plain, full))
     for c in gen_cases(rng, n_seeded):
         if c['tmax'] is None and c['kind'] not in L.TERMINATING: continue
+        if not seedable(c): continue
         seed = rng.randrange(10 ** 6)
-        plain = run_seeded(EoN, sim, c, seed, False)
-        full = run_seeded(EoN, sim, c, seed, True) if L.covers(c) else None
+        try:
+            with time_limit(10):
+                plain = run_seeded(EoN, sim, c, seed, False)
+                full = run_seeded(EoN, sim, c, seed, True) if L.covers(c) else None
+        except TimeLimit:
+            continue
         res.append((c, {'seed': seed}, plain, full))
     return res, ok, log
 
@@ -439,7 +468,8 @@ def replay(rp):
     how = j.get('how', {})
     C.build_driver(COMP)
     if 'seed' in how:
-        plain = run_seeded(EoN, sim, case, how['seed'], False); full = run_seeded(EoN, sim, case, how['seed'], True) if L.covers(case) else None
+        with time_limit(120):
+            plain = run_seeded(EoN, sim, case, how['seed'], False); full = run_seeded(EoN, sim, case, how['seed'], True) if L.covers(case) else None
     else:
         draws = [F(x) for x in how.get('draws', [])]
         plain = run_scripted(EoN, sim, case, draws, False); full = run_scripted(EoN, sim, case, draws, True) if L.covers(case) else None
